@@ -334,7 +334,7 @@ PROPS = {
     },
     'C20': {
         'v_units': [],
-        'k_units': ['optparse'],
+        'k_units': ['optparse', 'getoptsk'],
         'level': 'other',
         'explanation': (
             'Generic option parser only. Kani runs the real parse_arguments (with parse_short_options, parse_long_option, '
@@ -346,9 +346,10 @@ PROPS = {
             '--name=value = --name value, unknown / ambiguous / missing-argument invocations rejected. One harness per vector '
             '(5-20 s each). Bounded: see the unit\'s bound; 28 vectors ending in an error with arguments pending are out of '
             'reach (drop glue of Location inside the function, > 600 s) and excluded. NOT decided: the per-built-in '
-            'interpretation of parsed options, the bespoke parsers of set/kill/typeset and of the shell\'s command line.'),
+            'interpretation of parsed options, the bespoke parsers of set/kill/typeset and of the shell\'s command line.'
+            ' Unit getoptsk (Kani, concrete argument vectors): the getopts scanner (yash-builtin/src/getopts/model.rs next + OptionSpec::judge), driven to the end of each vector exactly as the built-in drives it, reports grouped options as it reports separate ones, an attached option-argument as a separate one (also at the end of a group), stops at `--`, a lone `-` or the first operand, reports an unknown option where it stands without losing the options grouped after it, and a missing option-argument as an error; literal expectations, the same for equivalent spellings.'),
         'trusted_base': ['Kani 0.68.0 + CBMC 6.11', 'reference parser in tools/gen_optparse.py'],
-        'assumptions': ['Mode::with_extensions only', 'two fixed option tables'],
+        'assumptions': ['Mode::with_extensions only', 'two fixed option tables', 'unit getoptsk: 16 concrete vectors over the option strings "ab:c"; expectations are literals written from XCU getopts'],
     },
     'C02': {
         'v_units': ['cmdsearch', 'looplevel', 'returnbi', 'whileloop', 'forloop', 'casecmd', 'condframe', 'simplecmd', 'funcall', 'subshellcmd', 'pipelinerun', 'asynclist', 'cmdlist', 'builtincall', 'absenttarget', 'exitbi'],
